@@ -519,6 +519,131 @@ pub fn control_flood_run(ch: &Ch, nframes: usize, accept_first: bool) -> ExecRes
     ExecResult { obs: fx_hash(&pulled), violation, nontrivial: true, witnesses: vec![("mux_blocked_by_flow_control", (beyond > 0 && beyond < 2 * nframes as u64) as u64)] }
 }
 
+/// Frame-size boundaries of the configuration: for every combination of write / read frame size around the
+/// 16-bit length field of the frame header, both endpoints either refuse the configuration (`RunError::Config`)
+/// or carry a full-frame burst (exactly `write_frame_size` bytes written without an intermediate flush) on one
+/// capability and 4 bytes on another to exactly the matching sub-streams.
+fn frame_bounds_run(ch: &Ch, wfs: u64, rfs: u64) -> ExecResult {
+    let out: Arc<Mutex<(Option<String>, u32, u32)>> = Default::default();
+    let out2 = out.clone();
+    let stuck = sched::run(ch, |idle| async move {
+        let clock = ctx::ManualClock::new();
+        let root = ctx::test_root(&clock);
+        let out = out2;
+        let (pa, pb) = pipe::pair();
+        let mk = || nv::VMuxConfig { read_frame_size: rfs, read_buffer_size: 4 * rfs.max(wfs), read_frame_count: 8, write_frame_size: wfs };
+        let c0 = nv::VQueue::new(&root, 1, limiter::Rate::INF);
+        let a0 = nv::VQueue::new(&root, 1, limiter::Rate::INF);
+        let c1 = nv::VQueue::new(&root, 1, limiter::Rate::INF);
+        let a1 = nv::VQueue::new(&root, 1, limiter::Rate::INF);
+        let m1 = nv::VMux::new(mk(), vec![], vec![(0, c0.clone()), (1, c1.clone())]);
+        let m2 = nv::VMux::new(mk(), vec![(0, a0.clone()), (1, a1.clone())], vec![]);
+        let bulk: Vec<u8> = (0..wfs as usize).map(|i| (i % 251) as u8).collect();
+        let (out, c0, a0, c1, a1, root, bulk) = (&out, &c0, &a0, &c1, &a1, &root, &bulk);
+        let refused = zksync_concurrency::sync::watch::channel(false).0;
+        let refused = &refused;
+        let fut = async move {
+            scope::run!(root, |ctx, s| async move {
+                s.spawn_bg(async move {
+                    if let Err(e) = m1.run(ctx, pa).await {
+                        if e.starts_with("Config") {
+                            out.lock().unwrap().1 += 1;
+                            refused.send_replace(true);
+                        }
+                    }
+                    Ok(())
+                });
+                s.spawn_bg(async move {
+                    if let Err(e) = m2.run(ctx, pb).await {
+                        if e.starts_with("Config") {
+                            out.lock().unwrap().1 += 1;
+                            refused.send_replace(true);
+                        }
+                    }
+                    Ok(())
+                });
+                // a refused configuration ends the run: cancel the transfer tasks
+                s.spawn_bg(async move {
+                    let mut rx = refused.subscribe();
+                    if zksync_concurrency::sync::wait_for(ctx, &mut rx, |x| *x).await.is_ok() {
+                        s.cancel();
+                    }
+                    Ok(())
+                });
+                s.spawn(async move {
+                    let mut ctrl = c1.open(ctx).await?;
+                    ctrl.write_all(ctx, b"ctrl").await?;
+                    ctrl.flush(ctx).await?;
+                    let mut st = c0.open(ctx).await?;
+                    st.write_all(ctx, bulk).await?;
+                    st.flush(ctx).await?;
+                    drop(st.close_write());
+                    drop(ctrl.close_write());
+                    anyhow::Ok(())
+                });
+                s.spawn(async move {
+                    let mut st = a1.open(ctx).await?;
+                    let mut got = vec![];
+                    loop {
+                        let b = st.read_up_to(ctx, 4096).await?;
+                        let n = b.len();
+                        got.extend(b);
+                        if n < 4096 {
+                            break;
+                        }
+                    }
+                    if got != b"ctrl" {
+                        let mut g = out.lock().unwrap();
+                        g.0.get_or_insert(format!("the control sub-stream (capability 1) received {} bytes although its peer wrote the 4 bytes \"ctrl\" (first bytes {:?})", got.len(), &got[..got.len().min(8)]));
+                    }
+                    out.lock().unwrap().2 += 1;
+                    anyhow::Ok(())
+                });
+                let mut st = a0.open(ctx).await?;
+                let mut got = vec![];
+                loop {
+                    let b = st.read_up_to(ctx, 4096).await?;
+                    let n = b.len();
+                    got.extend(b);
+                    if n < 4096 {
+                        break;
+                    }
+                }
+                if &got != bulk {
+                    let mut g = out.lock().unwrap();
+                    let first_diff = got.iter().zip(bulk.iter()).position(|(a, b)| a != b).unwrap_or(got.len().min(bulk.len()));
+                    g.0.get_or_insert(format!("the bulk sub-stream (capability 0) received {} bytes, its peer wrote {} (first difference at offset {first_diff})", got.len(), bulk.len()));
+                }
+                out.lock().unwrap().2 += 1;
+                anyhow::Ok(())
+            })
+            .await
+        };
+        match sched::drive(&idle, fut, |_| false).await {
+            sched::Driven::Stuck => (true, None),
+            sched::Driven::Done(r) => (false, r.err().map(|e| format!("{e:#}"))),
+        }
+    });
+    let (stuck, err) = stuck;
+    let (viol, refusals, readers_done) = out.lock().unwrap().clone();
+    let mut violation = viol;
+    if violation.is_none() && stuck {
+        violation = Some(format!("deadlock: with write_frame_size {wfs} / read_frame_size {rfs} accepted by both endpoints the burst never arrived"));
+    }
+    if violation.is_none() && refusals == 0 {
+        if let Some(e) = err {
+            violation = Some(format!("transfer failed although both endpoints accepted the configuration: {e}"));
+        }
+    }
+    if violation.is_none() && refusals == 0 && readers_done != 2 {
+        violation = Some(format!("transfer incomplete ({readers_done} of 2 readers finished) with write_frame_size {wfs} / read_frame_size {rfs}"));
+    }
+    let violation = violation.map(|v| format!("frame-size boundary: mux configuration write_frame_size {wfs}, read_frame_size {rfs} (accepted by Config::verify): {v}"));
+    ExecResult { obs: fx_hash(&(refusals, readers_done)), violation, nontrivial: true, witnesses: vec![("config_refused", (refusals > 0) as u64), ("full_frame_burst_delivered", (readers_done == 2) as u64)] }
+}
+
+const FRAME_BOUNDS: [(u64, u64); 8] = [(65534, 8), (65535, 8), (65536, 8), (131072, 8), (65535, 65535), (8, 65535), (8, 65536), (65536, 65536)];
+
 pub fn run(args: &Args) -> Report {
     let mut rep = Report::new("C14", "model_checking");
     let devs_of = |rp: &serde_json::Value| -> core::Deviations { rp["deviations"].as_array().map(|a| a.iter().map(|p| (p[0].as_u64().unwrap() as u32, p[1].as_u64().unwrap() as u32)).collect()).unwrap_or_default() };
@@ -530,6 +655,17 @@ pub fn run(args: &Args) -> Report {
             let sc = c["scenario"].as_u64().unwrap_or(1) as u32;
             core::replay_one(&|ch: &Ch| pair_run(ch, sc), devs_of(rp))
         } else {
+            if c["kind"] == "frame-bounds" {
+                let (w, r) = (c["write_frame_size"].as_u64().unwrap_or(65535), c["read_frame_size"].as_u64().unwrap_or(8));
+                let (res, div) = core::replay_one(&|ch: &Ch| frame_bounds_run(ch, w, r), devs_of(rp));
+                if let Some(d) = div {
+                    rep.machinery_errors.push(d);
+                }
+                if let Some(v) = res.violation {
+                    rep.violations.push(Violation { key: "replay".into(), what: v, replay: rp.clone() });
+                }
+                return rep;
+            }
             if c["kind"] == "control-flood" {
                 let (n, a) = (c["nframes"].as_u64().unwrap_or(60) as usize, c["accept_first"].as_bool().unwrap_or(false));
                 let (res, div) = core::replay_one(&|ch: &Ch| control_flood_run(ch, n, a), devs_of(rp));
@@ -562,6 +698,22 @@ pub fn run(args: &Args) -> Report {
     let mut wit2 = 0;
     let mut witf = 0;
     let mut wit4 = 0;
+    // frame-size boundaries (default schedule; the bursts are up to 128 KiB)
+    let (mut wit_refused, mut wit_burst) = (0u64, 0u64);
+    for (w, r) in FRAME_BOUNDS {
+        let cfgx = ExploreCfg::new(&format!("mux-frame-bounds[write {w} read {r}]"), 0, Duration::from_secs(20));
+        let st = explore(&cfgx, |ch| frame_bounds_run(ch, w, r));
+        execs += st.execs;
+        points += st.choice_points;
+        distinct += st.distinct_obs;
+        wit_refused += *st.witnesses.get("config_refused").unwrap_or(&0);
+        wit_burst += *st.witnesses.get("full_frame_burst_delivered").unwrap_or(&0);
+        rep.absorb("c14", &st, json!({"kind": "frame-bounds", "write_frame_size": w, "read_frame_size": r}));
+        stats.push(st.to_json());
+    }
+    if rep.violations.is_empty() && (wit_refused == 0 || wit_burst == 0) {
+        rep.machinery_errors.push(format!("vacuous frame-bounds part: configurations refused {wit_refused}, full-frame bursts delivered {wit_burst}"));
+    }
     for sc in [4u32, 3, 1, 2] {
         let cfgx = ExploreCfg::new(&format!("mux-pair[scenario {sc}]"), bound, budget.saturating_sub(t0.elapsed()) / match sc { 4 => 5, 3 => 4, _ => 2 });
         let st = explore(&cfgx, |ch| pair_run(ch, sc));
@@ -616,6 +768,7 @@ pub fn run(args: &Args) -> Report {
         "witness_two_streams_open_at_once": wit2,
         "witness_flush_cancelled_under_congestion": wit4,
         "witness_mux_blocked_by_flow_control": witf,
+        "frame_size_boundary_configurations": FRAME_BOUNDS.len(), "frame_size_boundary_configurations_refused": wit_refused, "frame_size_boundary_full_frame_bursts_delivered": wit_burst,
         "explorations": stats,
     });
     rep.assumptions = vec!["more than 3 concurrent streams and head-of-line blocking (a documented non-goal) are outside the scope".into(), "task switches only at awaits that return Pending".into()];
